@@ -158,6 +158,9 @@ pub struct Z64;
 #[derive(Clone, Copy)]
 #[repr(align(16))]
 pub struct A16x48(pub [u8; 48]);
+#[derive(Clone, Copy)]
+#[repr(align(128))]
+pub struct A128(pub [u8; 128]);
 
 pub const NTY: u8 = 15;
 
@@ -197,6 +200,8 @@ macro_rules! with_ty2 {
             0 => $f::<M, (), $e>($($args),*),
             1 => $f::<M, u8, $e>($($args),*),
             9 => $f::<M, A64, $e>($($args),*),
+            12 => $f::<M, A4096, $e>($($args),*),
+            13 => $f::<M, A128, $e>($($args),*),
             10 => $f::<M, [u8; 2000], $e>($($args),*),
             11 => $f::<M, [u8; 5000], $e>($($args),*),
             _ => $f::<M, u64, $e>($($args),*),
